@@ -195,7 +195,9 @@ def worker(args: Dict[str, Any]) -> Dict[str, Any]:
                 mon.use_tool_id(tool_id, "vf-failpoint")
 
                 def on_line(code, line):
-                    if code.co_filename.endswith(("common/executor.py", "common/meta_data.py")):
+                    # failpoints sit in the translation work itself, never inside the recovery path (reset() and the
+                    # thin wrappers that call it): a "failure" of three assignments is not a realistic fault
+                    if code.co_filename.endswith(("common/executor.py", "common/meta_data.py")) and code.co_name not in ("reset", "apply_ast_transformations", "write_cpp_files"):
                         budget[0] -= 1
                         if budget[0] == 0:
                             raise _Injected(f"injected at {Path(code.co_filename).name}:{line}")
